@@ -306,7 +306,7 @@ func (c *keyCache) load(meta KeyMeta, loader func(KeyMeta) (*internal.CryptoKey,
 	e, ok := c.read(meta)
 
 	switch {
-	case ok:
+	case ok && e.key.Created() == k.Created():
 		// existing key in cache. update revoked status and last loaded time and close key
 		// we just loaded since we don't need it
 		e.key.SetRevoked(k.Revoked())
